@@ -317,6 +317,14 @@ pub fn classics() -> Vec<(String, Prog)> {
             out.push((format!("IRIW+f[{},{}]", f1.s(), f2.s()), Prog { nlocs: 2, pre: vec![], threads: vec![vec![st(0, 1, Rlx)], vec![st(1, 2, Rlx)], vec![ld(0, Rlx), f(f1), ld(1, Rlx)], vec![ld(1, Rlx), f(f2), ld(0, Rlx)]] }));
         }
     }
+    // a fence before the reads / after the writes: it orders nothing by itself, stale reads stay allowed
+    // (also the shape that shows state leaking from one iteration into the next through the global SeqCst view)
+    for &f1 in &FENCE_ORDS {
+        for &f2 in &FENCE_ORDS {
+            out.push((format!("f;RR|WW;f[{},{}]", f1.s(), f2.s()), Prog { nlocs: 2, pre: vec![], threads: vec![vec![], vec![f(f1), ld(1, Rlx), ld(0, Rlx)], vec![st(0, 1, Rlx), st(1, 2, Rlx), f(f2)]] }));
+            out.push((format!("W;f;RR|WW;f[{},{}]", f1.s(), f2.s()), Prog { nlocs: 3, pre: vec![], threads: vec![vec![], vec![st(2, 5, Rlx), f(f1), ld(1, Rlx), ld(0, Rlx)], vec![st(0, 1, Rlx), st(1, 2, Rlx), f(f2), ld(2, Rlx)]] }));
+        }
+    }
     // relay thread with a two-sided fence (reads relaxed before it, stores relaxed after it): the fence
     // must forward what it acquired; consumer acquires by load or by fence
     for &f1 in &FENCE_ORDS {
@@ -470,7 +478,8 @@ impl RunResult {
 /// ctrl: 1 = stop_exploring/explore pair before the first spawn (empty region);
 ///       2 = region around the final loads after all joins; 3 = region around main's own ops;
 ///       4 = skip_branch before main's ops; 5 = region around thread 1's ops;
-///       6 = expect_explicit_explore + explore() right before the first spawn
+///       6 = expect_explicit_explore + explore() right before the first spawn;
+///       7 = region around main's ops except the first one
 pub fn run(p: &Prog, cfg: &Cfg) -> RunResult {
     struct Acc {
         outcomes: BTreeSet<Vec<u64>>,
@@ -553,7 +562,15 @@ pub fn run(p: &Prog, cfg: &Cfg) -> RunResult {
             if ctrl == 4 {
                 loom::skip_branch();
             }
-            out.extend(exec(&p2.threads[0], 0, p2.pre.len() as u8, &sh, &log));
+            if ctrl == 7 && p2.threads[0].len() >= 2 {
+                // the first operation is taken with exploration on (an explorable decision right before the region)
+                out.extend(exec(&p2.threads[0][..1], 0, p2.pre.len() as u8, &sh, &log));
+                loom::stop_exploring();
+                out.extend(exec(&p2.threads[0][1..], 0, p2.pre.len() as u8 + 1, &sh, &log));
+                loom::explore();
+            } else {
+                out.extend(exec(&p2.threads[0], 0, p2.pre.len() as u8, &sh, &log));
+            }
             if ctrl == 3 {
                 loom::explore();
             }
